@@ -556,6 +556,7 @@ type storeGen struct {
 	preds    []string
 	dss      []string
 	pending  []M // continuations of relation queries that are followed later
+	fresh    int
 }
 
 func (g *storeGen) value() interface{} {
@@ -581,7 +582,24 @@ func (g *storeGen) entity(id string) M {
 	}
 	refs := M{}
 	for k := 0; k < r.Intn(3); k++ {
+		// now and then a target or a predicate nobody has mentioned before (its identifier is minted by
+		// this write, possibly by a write that stores no new entity)
+		target := ""
+		if r.Intn(8) == 0 {
+			g.fresh++
+			target = fmt.Sprintf("ns3:x%d", g.fresh)
+			g.ids = append(g.ids, target)
+		}
 		p := g.preds[r.Intn(len(g.preds))]
+		if r.Intn(12) == 0 {
+			g.fresh++
+			p = fmt.Sprintf("ns3:q%d", g.fresh)
+			g.preds = append(g.preds, p)
+		}
+		if target != "" {
+			refs[p] = target
+			continue
+		}
 		if r.Intn(3) == 0 {
 			n := 1 + r.Intn(3)
 			l := []interface{}{}
